@@ -1,6 +1,6 @@
 """C20 - handle database: stale handles rejected, destructor exactly once."""
 from engine.qb import (AnalysisBroken, atoms_of, estr, unwrap, cval, walk, last_field, fields_of, callee_of, mentions_var)
-from rules.common import field_is, derives, some_source, has_call, refcount_op, dec_and_test_atom
+from rules.common import field_is, derives, some_source, has_call, refcount_op, dec_and_test_atom, value_sources
 
 UNITS = ['lib/hdb.c']
 DECIDES = ('Decides that range test, slot lookup and check comparison cut every path to an entry access in get/put/destroy/refcount_get, '
@@ -12,9 +12,12 @@ RULES = {
     'R3': 'hdb->destructor is invoked at one site, under dec_and_test(&ref_count), followed on every path by free(instance) and zeroing the entry',
     'R4': 'qb_hdb_iterator_next obtains instances only through qb_hdb_handle_get',
     'R5': 'create hands out a handle only after setting ref_count to exactly 1 (absolute store), or else every decrement is refused for EMPTY slots',
+    'R6': 'a handle is destroyed once: destroy drops the creation reference only for an ACTIVE object (a second destroy on an object pending removal would drop a reference that belongs to a get)',
+    'R7': 'an EMPTY slot accepts no handle: put, destroy and refcount_get cut every reference-count operation / destructor / count read with a state test that excludes EMPTY; a create that fails after claiming a slot gives the claim back',
+    'R8': 'a reused slot gets a check value it has not had: the value create stores is computed from the slot\'s previous check (a generation) and the release path does not reset that field to a constant',
     'W1': 'handle packing: check << 32 | index when created; >> 32 and & UINT32_MAX when resolved; qb_handle_t is 64 bits',
 }
-FLOORS = {'R1': 20, 'R2': 3, 'R3': 4, 'R4': 2, 'R5': 2, 'W1': 9}
+FLOORS = {'R1': 20, 'R2': 3, 'R3': 4, 'R4': 2, 'R5': 2, 'R6': 1, 'R7': 4, 'R8': 2, 'W1': 9}
 
 PUBLIC = ['qb_hdb_handle_get', 'qb_hdb_handle_put', 'qb_hdb_handle_destroy', 'qb_hdb_handle_refcount_get']
 
@@ -138,6 +141,9 @@ def run(ctx):
     r3(ctx)
     r4(ctx)
     r5(ctx)
+    r6(ctx)
+    r7(ctx)
+    r8(ctx)
     w1(ctx)
 
 
@@ -181,7 +187,10 @@ def r3(ctx):
             # alternative shape: state = EMPTY and check = 0 stored individually on every path
             oka, _pa = put.must_pass(st, lambda x: x.kind == 'STORE' and field_is(x.lhs, 'state', 'qb_hdb_handle') and cval(unwrap(x.rhs)) == EMPTY)
             okb, _pb = put.must_pass(st, lambda x: x.kind == 'STORE' and field_is(x.lhs, 'check', 'qb_hdb_handle') and cval(unwrap(x.rhs)) == 0)
-            ok2 = oka and okb
+            # ... or the check value is kept on purpose (generation) and EMPTY alone invalidates: then every public entry point
+            # must refuse an EMPTY slot (R7 checks that; here only that it holds)
+            okc = _all_refuse_empty(prog, EMPTY)
+            ok2 = oka and (okb or okc)
         ctx.check('R3', 'invalidate-on-last-put', ok2, '%s:%d (qb_hdb_handle_put)' % (put.file, b.term_ln),
                   'the entry is invalidated (zeroed: state EMPTY, check 0) on every path after the count reached zero',
                   'a path after the last put leaves the entry state/check intact (stale handles would still resolve)',
@@ -270,3 +279,115 @@ def w1(ctx):
                   'check = handle >> 32', 'check is not taken from the upper 32 bits')
         ctx.check('W1', '%s:unpack-mask' % name, bool(masks) and all(cval(unwrap(n['r'])) == 0xFFFFFFFF for n in masks), f,
                   'index = handle & UINT32_MAX', 'index is not the lower 32 bits')
+
+
+def _nonempty(EMPTY):
+    def pred(a, fb):
+        return field_is(a.l, 'state', 'qb_hdb_handle') and ((a.op == '!=' and a.rc == EMPTY) or (a.op == '==' and a.rc not in (None, EMPTY)))
+    return pred
+
+
+def _sensitive(f):
+    """events of a public entry point that act on the entry: reference-count operations, destructor, free, count read, state store"""
+    out = []
+    for ev in f.events():
+        if ev.kind == 'CALL' and (refcount_op(ev.e, 'qb_hdb_handle', 'ref_count') or ev.callee == 'qb_hdb::destructor' or ev.callee == 'qb_hdb_handle_put'):
+            out.append(ev)
+        elif ev.kind == 'STORE' and last_field(ev.lhs) and last_field(ev.lhs)[0] == 'qb_hdb_handle':
+            out.append(ev)
+    return out
+
+
+def _all_refuse_empty(prog, EMPTY):
+    pred = _nonempty(EMPTY)
+    for name in PUBLIC:
+        f = prog.fn(name)
+        sens = _sensitive(f)
+        if not sens or any(f.uncut_path(ev, pred) is not None for ev in sens):
+            return False
+    return True
+
+
+def r6(ctx):
+    prog = ctx.prog
+    st = prog.enum('QB_HDB_HANDLE_STATE')
+    ACTIVE, PENDING = st['QB_HDB_HANDLE_STATE_ACTIVE'], st['QB_HDB_HANDLE_STATE_PENDINGREMOVAL']
+    d = prog.fn('qb_hdb_handle_destroy')
+    puts = list(d.calls('qb_hdb_handle_put'))
+    marks = [ev for ev in d.stores(field='state', rec='qb_hdb_handle') if cval(unwrap(ev.rhs)) == PENDING]
+    if not puts or not marks:
+        raise AnalysisBroken('qb_hdb_handle_destroy: put / PENDINGREMOVAL store not found')
+
+    def active(a, fb):
+        return field_is(a.l, 'state', 'qb_hdb_handle') and a.op == '==' and a.rc == ACTIVE
+    ok = all(d.uncut_path(ev, active) is None for ev in puts + marks)
+    ctx.check('R6', 'destroy-needs-ACTIVE', ok, puts[0], 'destroy gives up the creation reference only for an ACTIVE object',
+              'qb_hdb_handle_destroy does not look at the state: a second destroy on an object that is pending removal drops a reference held by a caller of get '
+              '(the destructor runs and the instance is freed while in use; the matching put is then refused)')
+
+
+def r7(ctx):
+    prog = ctx.prog
+    EMPTY = prog.enum('QB_HDB_HANDLE_STATE')['QB_HDB_HANDLE_STATE_EMPTY']
+    pred = _nonempty(EMPTY)
+    for name in PUBLIC:
+        f = prog.fn(name)
+        sens = _sensitive(f)
+        if not sens:
+            raise AnalysisBroken('%s: nothing acts on the entry' % name)
+        bad = [ev for ev in sens if f.uncut_path(ev, pred) is not None]
+        ctx.check('R7', '%s:refuses-empty-slot' % name, not bad, bad[0] if bad else sens[0],
+                  '%s acts on an entry only after a state test that excludes EMPTY' % name,
+                  '%s accepts a handle whose slot is EMPTY when the check value matches what a released slot holds (the all-zero handle, a nocheck handle, a stale copy): '
+                  'it reads / changes the count of a slot that holds no object' % name)
+    c = prog.fn('qb_hdb_handle_create')
+    claims = [ev for ev in c.events('CALL') if (refcount_op(ev.e, 'qb_hdb_handle', 'ref_count') or ('', ''))[0] == 'inc']
+    fails = [r for r in c.returns() if r.e is not None and cval(unwrap(r.e)) is not None and cval(unwrap(r.e)) < 0 and any(c.may_follow(cl, r) for cl in claims)]
+    if claims:
+        ok = True
+        for r in fails:
+            hits, _e, _n = c.search(('after', claims[0]), goal=lambda ev, r=r: ev.d is r.d,
+                                    stop=lambda ev: (ev.kind == 'STORE' and last_field(ev.lhs) == ('qb_hdb_handle', 'ref_count')) or
+                                    (ev.kind == 'CALL' and (refcount_op(ev.e, 'qb_hdb_handle', 'ref_count') or ('', ''))[0] == 'dec'))
+            ok = ok and not hits
+        ctx.check('R7', 'create:failed-create-gives-claim-back', ok and bool(fails), fails[0] if fails else c,
+                  'a create that fails after claiming a free slot resets the slot\'s count',
+                  'a create that fails to allocate the instance leaves its claim (count 1) on the empty slot: the next object there starts at 2 / a put on the empty slot runs the destructor')
+    else:
+        ctx.ok('R7', 'create:failed-create-gives-claim-back', c, 'create does not claim a slot by incrementing its count')
+
+
+def r8(ctx):
+    prog = ctx.prog
+    c = prog.fn('qb_hdb_handle_create')
+    sts = [ev for ev in c.stores(field='check', rec='qb_hdb_handle')]
+    if len(sts) != 1:
+        raise AnalysisBroken('qb_hdb_handle_create: check stores = %d' % len(sts))
+    srcs, entry = value_sources(c, sts[0].rhs, sts[0])
+    from_prev = any(any(n.get('k') == 'mem' and n.get('f') == 'check' and n.get('rec') == 'qb_hdb_handle' for n in walk(x)) or
+                    (x.get('k') == 'bin' and x['op'] == '+') for x in srcs)
+    # one level more: locals the sources mention that are themselves loaded from entry->check
+    if not from_prev:
+        for x in srcs:
+            for n in walk(x):
+                if n.get('k') == 'var':
+                    s2, _e = value_sources(c, n, sts[0])
+                    if any(last_field(y) == ('qb_hdb_handle', 'check') for y in s2):
+                        from_prev = True
+    ctx.check('R8', 'check-continues-the-slot-generation', from_prev, sts[0],
+              'the check value of a new object is computed from the check value its slot had before',
+              'the check value is drawn afresh (random) for every object: sooner or later a slot is given a value it had before, and every stale copy of that old handle '
+              'resolves to the new object (the default random() sequence repeats a value after about 15000 uses of one slot)')
+    resets = []
+    for f in prog.all_fns(files={'lib/hdb.c'}):
+        if f.name == 'qb_hdb_handle_create':
+            continue
+        for ev in f.stores(field='check', rec='qb_hdb_handle'):
+            resets.append(ev)
+        for ev in f.calls('memset'):
+            a0 = unwrap(ev.args[0])
+            if a0.get('ty', '').startswith('struct qb_hdb_handle'):
+                resets.append(ev)
+    ctx.check('R8', 'generation-never-reset', not resets or not from_prev, resets[0] if resets else c,
+              'no other function overwrites a slot\'s check value',
+              'the slot\'s check value is reset when the object is released: the generation restarts and handle values repeat')
